@@ -486,3 +486,6 @@ m('c04-r5-default-attributes-early-exit', 'C04', 'C04-R5', 'entry:any::difficult
 m('c17-r6-default-attributes-early-exit', 'C17', 'C17-R6', 'entry:osu::difficulty::difficulty', diff='selftest/seed_diffs/C17-6.diff')
 m('c10-r5-raw-clone-drops-zeros', 'C10', 'C10-R5', 'clone:raw_strains', diff='selftest/seed_diffs/C02-6.diff')
 m('c14-r7-fast-path-before-mark', 'C14', 'C14-R7', 'every-path:taiko', diff='selftest/seed_diffs/C14-7.diff')
+m('c02-r1b-guard-over-converted-map', 'C02', 'C02-R1b', 'mania:gradual_difficulty:guard:apply_hold_off_to_beatmap', diff='selftest/seed_diffs/C02-7.diff')
+m('c08-r5-legacy-fast-path-in-calculator', 'C08', 'C08-R5', 'inspects:osu::performance::calculator::ModFlags::new', diff='selftest/seed_diffs/C08-7.diff')
+m('c10-r7-sync-only-shortcut', 'C10', 'C10-R7', '[sync]wrapper:util::sync::inner::position_from', diff='selftest/seed_diffs/C10-7.diff')
